@@ -144,11 +144,19 @@ Theorem C06_fbig_to_float_subnormal_value_refuted :
 Proof. exact fbig_to_float_subnormal_value_refuted. Qed.
 Print Assumptions C06_fbig_to_float_subnormal_value_refuted.
 
+(** F39 (repaired in the fourth round, see C06_fbig_to_f64_div_route below): the statement is kept over
+    the model of the code BEFORE the repair ([fbig_to_float_old]: the division route through repr_div) *)
 Theorem C06_fbig_to_float_division_route_refuted :
-  fbig_to_float P64 10 MHalfEven 4899 (-7) = Panic Undocumented /\
+  fbig_to_float_old P64 10 MHalfEven 4899 (-7) = Panic Undocumented /\
   ieee_round F64 MHalfEven 4899 (10 ^ 7) = (4557657753232426611, Gt).
 Proof. exact fbig_to_float_division_refuted. Qed.
 Print Assumptions C06_fbig_to_float_division_route_refuted.
+
+Theorem C06_fbig_to_float_division_route_repaired_witness :
+  fbig_to_float P64 10 MHalfEven 4899 (-7) = Ok (FR 4557657753232426611 (Some AddOne)) /\
+  flag_of_error 1 Gt = Some AddOne.
+Proof. exact fbig_to_float_division_repaired_witness. Qed.
+Print Assumptions C06_fbig_to_float_division_route_repaired_witness.
 
 Theorem C06_int_to_float_refuses_representable_refuted :
   int_try_to_float P32 16777218 = CLossOfPrecision /\ exact_to_float F32 16777218 1 = Some 1266679809.
@@ -621,3 +629,87 @@ Theorem C06_fast_quotient_bound_f64 : forall N D, N <> 0 -> 0 < D ->
   else (2 * man - 9) * D < 2 * Z.abs N * 2 ^ (- ex) < (2 * man + 2) * D.
 Proof. exact fast_quotient_bound_f64. Qed.
 Print Assumptions C06_fast_quotient_bound_f64.
+
+(** Fourth round.  The division route of Context::convert_base (bases that are not powers of one another, small
+    negative exponent) after the repair of F39: the as-is model of the repaired code (pad a short dividend, divide
+    exactly, cut the quotient to exactly p digits, ONE rounding by round_ratio) returns, for EVERY target base,
+    precision, mode, non-zero dividend and positive divisor, the correctly rounded p-digit float of the quotient
+    with the truthful flag; its significand never exceeds the precision. *)
+From Dashu Require Import Conv.ConvDivRoute.
+
+Theorem C06_convert_base_div_route : forall B, 2 <= B -> forall p m N D e1 e2, 1 <= p -> 0 < D -> N <> 0 ->
+  let u := rat_exp B N D - p + 1 in
+  let M := round_rat_at B m N D u in
+  let c := cmp_kx B 1 (XRat N D) M u in
+  B ^ (p - 1) <= Z.abs M <= B ^ p /\ (0 < N -> 0 < M) /\ (N < 0 -> M < 0) /\
+  div_round_once B p m N e1 D e2 =
+    match flag_of_error (Z.sgn N) c with
+    | None => (let '(h, x) := normalize B M (u + e1 - e2) in AExact h x)
+    | Some a => AInexact M (u + e1 - e2) a
+    end.
+Proof. exact div_round_once_correct. Qed.
+Print Assumptions C06_convert_base_div_route.
+
+Theorem C06_convert_base_div_route_fits : forall B p m N D e1 e2, 2 <= B -> 1 <= p -> 0 < D -> N <> 0 ->
+  let a := div_round_once B p m N e1 D e2 in
+  dlen B (fst (normalize B (approx_sig a) (approx_exp a))) <= p.
+Proof. exact div_round_once_fits. Qed.
+Print Assumptions C06_convert_base_div_route_fits.
+
+(** FBig<R,B>::to_f32 / to_f64 and Repr<B>::to_f32 / to_f64 for a base that is not a power of two and an exponent in
+    [-THRESHOLD_SMALL_EXP, -1] (regenerated): the correctly rounded IEEE value of s / B^-e under the mode with the
+    truthful flag whenever the value is not below the smallest normal number (overflow to infinity included); the
+    debug assertion of into_f32/f64_internal cannot fire (the result is Ok) *)
+Theorem C06_fbig_to_f64_div_route : forall B m s e, 2 < B -> ilog_exact2 B <= 1 -> s <> 0 ->
+  - nth 0 convert_small_exp_gen 0 <= e < 0 ->
+  emin F64 + prec F64 - 1 < mag2 (Z.abs s) (B ^ (- e)) ->
+  fbig_to_float P64 B m s e =
+    Ok (let r := ieee_round F64 m s (B ^ (- e)) in FR (fst r) (flag_of_error (Z.sgn s) (snd r))).
+Proof. exact fbig_to_f64_div_route. Qed.
+Print Assumptions C06_fbig_to_f64_div_route.
+
+Theorem C06_fbig_to_f32_div_route : forall B m s e, 2 < B -> ilog_exact2 B <= 1 -> s <> 0 ->
+  - nth 0 convert_small_exp_gen 0 <= e < 0 ->
+  emin F32 + prec F32 - 1 < mag2 (Z.abs s) (B ^ (- e)) ->
+  fbig_to_float P32 B m s e =
+    Ok (let r := ieee_round F32 m s (B ^ (- e)) in FR (fst r) (flag_of_error (Z.sgn s) (snd r))).
+Proof. exact fbig_to_f32_div_route. Qed.
+Print Assumptions C06_fbig_to_f32_div_route.
+
+(** Rust's `as` casts between integers and floats are no longer an unproved contract of the models: the two
+    models the conversions are proved with are the Rust Reference's numeric casts stated over Flocq
+    (integer -> float = binary_normalize mode_NE, overflow to infinity; float -> integer = Btrunc, i.e.
+    round radix2 (FIX_exp 0) Ztrunc of the real value, clamped to the type, NaN -> 0), and the reference
+    functions are compared with the real casts of the compiler on every run (ops cast_i2f / cast_f2i). *)
+From Dashu Require Import Conv.ConvCastModel Conv.ConvCastProofs.
+
+Theorem C06_cast_int_to_f64_is_flocq : forall v, cast_uint P64 v = int_to_f64_ref v.
+Proof. exact cast_uint_f64_flocq. Qed.
+Print Assumptions C06_cast_int_to_f64_is_flocq.
+
+Theorem C06_cast_int_to_f32_is_flocq : forall v, cast_uint P32 v = int_to_f32_ref v.
+Proof. exact cast_uint_f32_flocq. Qed.
+Print Assumptions C06_cast_int_to_f32_is_flocq.
+
+Theorem C06_cast_f64_to_uint_is_flocq : forall DW bits, 0 <= DW -> 0 <= bits < inf_bits P64 ->
+  cast_back P64 DW bits = f64_to_int_ref false DW bits.
+Proof. exact cast_back_f64_flocq. Qed.
+Print Assumptions C06_cast_f64_to_uint_is_flocq.
+
+Theorem C06_cast_f32_to_uint_is_flocq : forall DW bits, 0 <= DW -> 0 <= bits < inf_bits P32 ->
+  cast_back P32 DW bits = f32_to_int_ref false DW bits.
+Proof. exact cast_back_f32_flocq. Qed.
+Print Assumptions C06_cast_f32_to_uint_is_flocq.
+
+Theorem C06_cast_float_to_int_reference : forall sg TW bits,
+  let f := b64_of_bits bits in
+  (Binary.is_nan 53 1024 f = true -> f64_to_int_ref sg TW bits = 0) /\
+  (Binary.is_finite 53 1024 f = true ->
+     int_lo sg TW <= int_hi sg TW ->
+     let t := Binary.Btrunc 53 1024 f in
+     IZR t = round radix2 (FIX_exp 0) Ztrunc (Binary.B2R 53 1024 f) /\
+     f64_to_int_ref sg TW bits = (if t <? int_lo sg TW then int_lo sg TW else if int_hi sg TW <? t then int_hi sg TW else t)) /\
+  (f = Binary.B754_infinity 53 1024 false -> f64_to_int_ref sg TW bits = int_hi sg TW) /\
+  (f = Binary.B754_infinity 53 1024 true -> f64_to_int_ref sg TW bits = int_lo sg TW).
+Proof. exact f64_to_int_ref_spec. Qed.
+Print Assumptions C06_cast_float_to_int_reference.
